@@ -15,4 +15,3 @@ func raceEnable() { runtime.RaceEnable() }
 
 // RaceErrors is the number of race reports so far in this process.
 func RaceErrors() int { return runtime.RaceErrors() }
-
